@@ -226,6 +226,14 @@ package check
 //@        (len(prev(strOneComment)) > 0 ==> strOneComment == prev(strOneComment)) && (len(prev(strOneComment)) == 0 && len(strDoc1) > 0 ==> strOneComment == strDoc1)
 //@ end
 
+// the hover / completion label of a function shows its parameter list as written: a vararg function's list ends with
+// "..." - also when "..." is its only parameter - right before the closing parenthesis
+//@ func (*AllProject).getFuncShowStr
+//@   props C13
+//@   ensures[vararg-marker-closes-the-parameter-list] paramTipFlag && !returnFlag && varInfo != nil && varInfo.ReferFunc != nil && varInfo.ReferFunc.IsVararg
+//@        ==> len(str) >= 4 && str[len(str) - 1] == 41 && str[len(str) - 2] == 46 && str[len(str) - 3] == 46 && str[len(str) - 4] == 46
+//@ end
+
 // ---- C08: the first pass over one file (parse + first traversal), and the unchanged-content short cut ----
 //@ func (*AllProject).analysisFirstLuaFile
 //@   props C08
